@@ -283,6 +283,23 @@ distinct = distinct positions / names / strings; oracle = reference successor on
         }
         successor_walk(obs, site, prefix);
     }
+    // the same site and volume directory under *changing* prefixes, back to back: a rotating
+    // directory is reused by a new volume scan every few hours, so two chunks that agree on site
+    // and volume need not agree on anything else
+    {
+        let n = ctx.tier.pick(30_000u64, 600_000u64);
+        for k in 0..n {
+            let site = ["KTLX", "KDMX"][(k / 64 % 2) as usize];
+            let vol = *rng.pick(&[1usize, 2, 500, 998, 999]);
+            let prefix = if rng.chance(1, 2) {
+                prefixes[rng.usize_below(3)].to_string()
+            } else {
+                format!("{:04}{:02}{:02}-{:02}{:02}{:02}", rng.range(1991, 2100), rng.range(1, 12), rng.range(1, 28), rng.below(24), rng.below(60), rng.below(60))
+            };
+            check_position(obs, site, vol, &prefix, rng.range(1, 55) as usize);
+            obs.count("positions_under_changing_prefixes_for_one_directory", 1);
+        }
+    }
     obs.sample(json!({"kind": "position", "name": "20240813-123330-055-E", "volume": 999, "expected_successor": "volume 1"}));
 
     // ---- archive names -----------------------------------------------------------------------------------
